@@ -49,17 +49,30 @@ type watchdog struct {
 func startWatchdog(t testing.TB, run *h.Run, limit time.Duration) *watchdog {
 	w := &watchdog{stop: make(chan struct{}), prop: os.Getenv("VERIF_PROP"), trace: os.Getenv("VERIF_TRACE") != ""}
 	go func() {
-		tk := time.NewTicker(time.Second)
-		defer tk.Stop()
+		// only ticks that arrive on time count: if the machine or the process stalls (load, memory pressure) the
+		// late ticks show it and the stalled interval is not held against the case; a real hang (busy loop or
+		// deadlock) still collects `limit` worth of on-time ticks
+		var lastSince time.Time
+		var good time.Duration
+		last := time.Now()
 		for {
 			select {
 			case <-w.stop:
 				return
-			case <-tk.C:
+			case <-time.After(250 * time.Millisecond):
+				el := time.Since(last)
+				last = time.Now()
 				w.mu.Lock()
 				cur, kind, since := w.cur, w.kind, w.since
 				w.mu.Unlock()
-				if cur != nil && time.Since(since) > limit {
+				if cur == nil || !since.Equal(lastSince) {
+					lastSince, good = since, 0
+					continue
+				}
+				if el < time.Second {
+					good += el
+				}
+				if good > limit {
 					run.Fail(kind, cur, fmt.Sprintf("did not return within %v (hang)", limit))
 					run.End(t)
 					fmt.Println("WATCHDOG: case exceeded", limit)
